@@ -919,6 +919,8 @@ def run(prog, rep, tier):
     rep.rule('LABEL-known', 'typestate of leg-label sets: literal labels used on a local tensor '
              'whose complete label set is known (literal transposition, contractions) exist on it')
     check_labels(prog, rep, ['tenpy/algorithms/tebd.py', 'tenpy/algorithms/tdvp.py', 'tenpy/algorithms/mpo_evolution.py'])
+    rep.rule('TROTTER-order', 'order conditions of the fourth-order Suzuki scheme on the folded literals')
+    check_trotter_order(prog, rep)
     return rep.finish(
         level='other',
         explanation='Accounting clauses of C14 decided statically: class-by-class count of '
@@ -928,3 +930,71 @@ def run(prog, rep, tier):
         'TEBD/ExpMPO/TDVP, and truncation-error flow. Convergence order is not decided.' % (ob, di),
         proof={'obligations': ob, 'discharged': di, 'exhaustive': True,
                'checker_cmd': './check C14', 'trusted_base': ['sa/linform.py', 'python ast']})
+
+
+# ------------------------------------------------------------------ TROTTER-order
+def _fold_num(e, env, depth=0):
+    """numeric value of a literal arithmetic expression (names through the path environment)"""
+    if depth > 20:
+        raise NotPoly('too deep')
+    if isinstance(e, ast.Constant) and isinstance(e.value, (int, float)) and not isinstance(
+            e.value, bool):
+        return float(e.value)
+    if isinstance(e, ast.Name):
+        v = env.get(e.id, UNKNOWN)
+        if isinstance(v, ast.AST):
+            return _fold_num(v, env, depth + 1)
+        if isinstance(v, (int, float)) and not isinstance(v, bool):
+            return float(v)
+        raise NotPoly('unknown name ' + e.id)
+    if isinstance(e, ast.UnaryOp) and isinstance(e.op, (ast.USub, ast.UAdd)):
+        v = _fold_num(e.operand, env, depth + 1)
+        return -v if isinstance(e.op, ast.USub) else v
+    if isinstance(e, ast.BinOp):
+        a, b = _fold_num(e.left, env, depth + 1), _fold_num(e.right, env, depth + 1)
+        if isinstance(e.op, ast.Add):
+            return a + b
+        if isinstance(e.op, ast.Sub):
+            return a - b
+        if isinstance(e.op, ast.Mult):
+            return a * b
+        if isinstance(e.op, ast.Div):
+            return a / b
+        if isinstance(e.op, ast.Pow):
+            return a ** b
+    raise NotPoly('not a literal expression: ' + unparse(e))
+
+
+def check_trotter_order(prog, rep):
+    """TROTTER-order: the fourth-order scheme is Suzuki's composition of five second-order steps
+    with times (t1, t1, t3, t1, t1). Besides 4 t1 + t3 = 1 (decided exactly by TROTTER-sum) the
+    third-order error cancels only if 4 t1^3 + t3^3 = 0; with the literal constants folded from
+    the source, both must hold (to rounding) and the half steps must be t1/2 and (t1 + t3)/2."""
+    m = prog.module(TEBD)
+    f = m.func('TEBDEngine.suzuki_trotter_time_steps')
+    if 4 not in _order_values(f):
+        raise AnalysisError('suzuki_trotter_time_steps: order 4 not found')
+    p = _single_return(f, 4, 'suzuki_trotter_time_steps')
+    val = p.value
+    if isinstance(val, ast.Name) and isinstance(p.env.get(val.id), ast.AST):
+        val = p.env[val.id]
+    if not isinstance(val, (ast.List, ast.Tuple)) or len(val.elts) != 4:
+        raise AnalysisError('suzuki_trotter_time_steps: order 4 does not return four time steps')
+    try:
+        h1, t1, h2, t3 = [_fold_num(e, dict(p.env)) for e in val.elts]
+    except (NotPoly, ZeroDivisionError, OverflowError) as e:
+        raise AnalysisError('suzuki_trotter_time_steps: cannot fold the order-4 constants (%s)' % e)
+    checks = [('sum 4*t1 + t3 = 1', 4 * t1 + t3 - 1.0),
+              ('cubic cancellation 4*t1^3 + t3^3 = 0', 4 * t1 ** 3 + t3 ** 3),
+              ('first half step = t1/2', h1 - t1 / 2),
+              ('middle half step = (t1 + t3)/2', h2 - (t1 + t3) / 2)]
+    for what, resid in checks:
+        rep.instance('TROTTER-order', {'order': 4, 'condition': what, 'residual': '%.3e' % resid})
+        if abs(resid) > 1e-12:
+            rep.violation('TROTTER-order', m, 'TEBDEngine.suzuki_trotter_time_steps',
+                          'order4:' + what,
+                          'with the constants in the source (t1 = %.15g, t3 = %.15g) the '
+                          'condition "%s" is violated by %.3e: the scheme advertised as fourth '
+                          'order has a third-order error term (it converges like a second-order '
+                          'scheme)' % (t1, t3, what, resid), f.lineno)
+    return len(checks)
